@@ -306,6 +306,9 @@ func runFED16(r *core.Run) {
 		// followers of a de-duplicated subgraph request store the leader's response without a
 		// network call of their own; switched off so that every SetMany is attributable
 		rc.ExecutionOptions.DisableSubgraphRequestDeduplication = true
+		// the plan in the extensions lets a mismatch with the reference be recognised as the known
+		// planner finding "cyclic fetch dependencies" (not a cache matter)
+		rc.ExecutionOptions.IncludeQueryPlanInResponse = true
 	}
 	type slot struct {
 		op *fedOp
@@ -390,11 +393,15 @@ func runFED16(r *core.Run) {
 		}
 		s := e.summarize(sl.x, nil)
 		want := canonJSON(mustJSON(ref.Data))
+		shape := sharedKeyShape(sl.op.Query)
+		if shape == "" && planHasDependencyCycle(s.body) {
+			shape = "-plan-with-cyclic-fetch-dependencies"
+		}
 		if !s.valid || s.data != want {
-			r.Fail(prop, "not-transparent", "data"+sharedKeyShape(sl.op.Query), "request %d of the history returns different data with the cache than without\noperation: %s vars=%s\nwith cache: %s\nreference:  %s\n%s", i, sl.op.Query, sl.op.Vars, s.data, want, e.describe())
+			r.Fail(prop, "not-transparent", "data"+shape, "request %d of the history returns different data with the cache than without\noperation: %s vars=%s\nwith cache: %s\nreference:  %s\n%s", i, sl.op.Query, sl.op.Vars, s.data, want, e.describe())
 		}
 		if s.hasErr && !relaxed {
-			r.Fail(prop, "not-transparent", "errors"+sharedKeyShape(sl.op.Query), "request %d reports errors although neither a subgraph nor the reference failed: %s", i, s.body)
+			r.Fail(prop, "not-transparent", "errors"+shape, "request %d reports errors although neither a subgraph nor the reference failed: %s", i, s.body)
 		}
 	}
 	// ---- storability of everything that was written
